@@ -8,12 +8,12 @@ Require Import GT.PyBase GT.Data GT.ScriptSpec GT.JsonSpec GT.JsonModel GT.Rende
 Import ListNotations.
 Open Scope Z_scope.
 
-(* For all trees, all scripts (valid or not) outside the D23 shape, and all layouts: deleting the inserted characters leaves, token
+(* For all trees, all scripts (valid or not) outside the D33 shape, and all layouts: deleting the inserted characters leaves, token
    for token, the plain print of the document  nproj false a b e  that the script spells for the first side
    (a's children where matched at a cost or removed, in script order); deleting the removed ones leaves the
    print of  nproj true a b e.  Hypotheses: numbers print as non-empty atoms, string characters are
    non-negative code points (tok_ok, edit_ok); no list element that is a mapping is replaced (clean: the
-   carve-out of finding D23, see C06_text_refuted_D23). *)
+   carve-out of finding D33, see C06_text_refuted_D23). *)
 Theorem C06_first : forall lay a b e, tok_ok a = true -> tok_ok b = true -> edit_ok e = true ->
   clean false a e = true ->
   toks (erase Inserted (jrender lay a b e)) = ttoks (nproj false a b e).
@@ -71,7 +71,7 @@ Theorem C06_reads_ordered_partial : forall lay a b e,
    jparse_lenient (erase Removed (jrender lay a b e)) = Some (value_of b)).
 Proof. exact C06_reads_ordered_all. Qed.
 
-(* necessity of the hypotheses = the open findings: D23 (a mapping replaced as an element of a list is printed
+(* necessity of the hypotheses = the open findings: D33 (a mapping replaced as an element of a list is printed
    from -> to -> to), D4 (zero-cost match of 1 and 1.0) and D16 (zero-cost removal) *)
 Theorem C06_text_refuted_D23 :
   exists lay a b e, tok_ok a = true /\ tok_ok b = true /\ edit_ok e = true /\ valid a b e = true /\
